@@ -11,7 +11,7 @@ trap 'rm -rf "$D" /verif/.build/bin-$T /verif/.build/ov-$T /verif/.build/overlay
 git -C /repo archive HEAD | tar -x -C "$D"
 # uncommitted changes of /repo are part of "the current tree"
 git -C /repo diff HEAD | (cd "$D" && git apply --allow-empty 2>/dev/null || true)
-if ! (cd "$D" && git apply "$P" 2>/dev/null || patch -p1 -s < "$P"); then echo "patch failed"; echo "EXIT=9"; exit 9; fi
+if ! (cd "$D" && git apply "$P" 2>/dev/null || patch -p1 -F0 -s < "$P"); then echo "patch failed"; echo "EXIT=9"; exit 9; fi
 if [ "${MUTATE_RUN_TESTS:-0}" = 1 ]; then
   (cd "$D" && GOFLAGS=-mod=mod GOPROXY=off go test -vet=off -count=1 ./... 2>&1 | grep -v "^ok\|no test files" | head -20; echo "repo tests done")
 fi
